@@ -110,7 +110,8 @@ theorem parseIntRadix_digits (w : Text) (hw : DigitStr w) (n : Nat) (hp : parseD
     have hc := hw c (by simp)
     have h1 : c ≠ '+' := by intro h; subst h; simp [isDigit] at hc
     have h2 : c ≠ '-' := by intro h; subst h; simp [isDigit] at hc
-    unfold parseIntRadix
+    apply parseIntRadix_of_strict
+    unfold parseIntStrict
     split
     · rename_i heq; cases heq
     · rename_i heq; injection heq with a b; exact absurd a h1
@@ -196,7 +197,8 @@ theorem getLast_append_digits (pre w : Text) (hw : DigitStr w) (hne : w ≠ []) 
 
 theorem parseIntRadix_neg_digits (w : Text) (n : Nat) (hp : parseDigits 10 0 w = some n)
     (hne : w ≠ []) : parseIntRadix 10 ('-' :: w) = some (- Int.ofNat n) := by
-  unfold parseIntRadix
+  apply parseIntRadix_of_strict
+  unfold parseIntStrict
   split
   · rename_i heq; cases heq
   · rename_i heq; injection heq with a b; simp at a
